@@ -988,12 +988,15 @@ def classify(prog, unwrapped_pairs):
     return 'lost:' + '>'.join(sig)
 
 def shrink(env, attr, init, prog, created=False):
+    budget = [150]      # executions per program
     def loses(p):
+        if budget[0] <= 0: return False
+        budget[0] -= 1
         try: return bool(execute(env, attr, init, p, created).losses)
         except Exception: return False
     cur = list(prog)
     changed = True
-    while changed:
+    while changed and budget[0] > 0:
         changed = False
         for i in range(len(cur) - 1, -1, -1):
             cand = cur[:i] + cur[i + 1:]
@@ -1005,10 +1008,11 @@ def shrink(env, attr, init, prog, created=False):
 # ---------------------------------------------------------------------------------------------------------------------
 
 def report_result(ctx, env, attr, init, prog, res, facts, created=False, label='random'):
-    if res.losses and len(ctx.violations) >= 25:
-        # already 25 distinct concrete failing inputs reported: further losing programs are counted, not minimised (time)
-        ctx.count('loss:counted only (25 minimal failing inputs already reported)')
+    if res.losses and ctx.counters.get('loss:minimised', 0) >= 25 and ctx.violations:
+        # 25 losing programs have been minimised and reported already: further ones are counted, not minimised (a check must end)
+        ctx.count('loss:counted only (25 losing programs already minimised and reported)')
     elif res.losses:
+        ctx.count('loss:minimised')
         small = shrink(env, attr, init, prog, created)
         r2 = execute(env, attr, init, small, created)
         loss = (r2.losses or res.losses)[0]
